@@ -853,7 +853,12 @@ impl Session {
             let stream = self.streams[slot].as_mut().unwrap();
             let new_len = self.model.get(&h.names).map(|n| n.data.len() as u64).unwrap_or(0);
             let l = stream.len();
-            let p = stream.stream_position();
+            // stream_position() is a seek(Current(0)); on a handle with unwritten changes it
+            // is only made every other time, so that a seek which wrongly writes the
+            // buffer back does not do so unseen inside this probe before the workload's
+            // own next call arrives
+            let probe = !h.dirty || h.pos.wrapping_add(new_len) % 2 == 0;
+            let p = if probe { stream.stream_position() } else { Ok(h.pos) };
             self.hm[slot] = Some(h.clone());
             if l != new_len {
                 return mk(format!("len() = {new_len} after {}", step.name()), format!("{l}"), "len-not-current");
